@@ -94,6 +94,11 @@ func run(r *ev.Run) {
 		i := i
 		jobs = append(jobs, func() { runScanFault(r, root, i) })
 	}
+	// round 7: further error kinds of the failing Fetch, own case ids (sf1000...)
+	for i := 0; fam("scanfault") && i < r.Pick(1, 4)*len(scanFaultKinds7)*len(scanFaultStates); i++ {
+		i := i
+		jobs = append(jobs, func() { runScanFault(r, root, scanFault7Base+i) })
+	}
 	workers := runtime.NumCPU() - 2
 	if workers > 14 {
 		workers = 14
@@ -173,6 +178,7 @@ func run(r *ev.Run) {
 	for _, k := range scanFaultKinds {
 		sf = append(sf, k)
 	}
+	sf = append(sf, scanFaultKinds7...)
 	r.Require("scan_faults", sf...)
 	r.Require("scan_fault_states", scanFaultStates...)
 	r.Require("restarts", "final/after-start-up-scan-fault")
